@@ -388,7 +388,7 @@ func TestVerifC19Stress(t *testing.T) {
 		dur = 20 * time.Second
 	}
 	u := vk.Unit{Property: "C19", Name: "c19.stress",
-		Rule: "stress: for 3 s (thorough 20 s) goroutines concurrently make peers appear (summary vectors are sent and serialised inside the scripted convergence layers' own goroutines), deliver peers' vectors, run the ageing job and forward data bundles on a real Core; the process must survive (a 'concurrent map' fatal error kills the test binary, which the driver reports as a violation with this case); non-trivial = the run completed with >= 100 events; distinct by round"}
+		Rule: "stress: for 3 s (thorough 20 s) goroutines concurrently make peers appear (summary vectors are sent and serialised inside the scripted convergence layers' own goroutines), deliver peers' vectors, run the ageing job and forward data bundles on a real Core that knows 3000 other nodes; the process must survive (a 'concurrent map' fatal error kills the test binary, which the driver reports as a violation with this case); non-trivial = the run completed with >= 100 events; distinct by round"}
 	rounds := 2
 	vk.Enumerate(t, u, false, func(yield func(int) bool) {
 		for r := 0; r < rounds; r++ {
@@ -408,6 +408,12 @@ func TestVerifC19Stress(t *testing.T) {
 		for i := 0; i < 4; i++ {
 			s.addPeer(fmt.Sprintf("p%d", i))
 		}
+		// a node that knows many others: its table takes a while to age and to copy into a summary vector
+		big := map[string]float64{}
+		for k := 0; k < 3000; k++ {
+			big[fmt.Sprintf("dtn://known%d/", k)] = 0.5
+		}
+		s.receive(vfProphetMetadata("dtn://p0/", vfNodeName, big, 9999))
 		// vectors arriving
 		wg.Add(1)
 		go func() {
